@@ -360,7 +360,7 @@ fn find_value<C: Col, F: Fb<C>>(fb: &F, w: i32, h: i32, want: Option<u32>) -> Op
 fn main() {
     main_with("c10", "exploration", |run| {
         run.set_rule(
-            "Framebuffer instantiations: 7 colour depths (1,2,4,8,16,24,32 bits) x 2 data orders x sizes {1x1,3x2,5x3,8x2,9x4,13x7} with exact buffers and oversized (N+3, tail pre-filled with 0xA5) buffers for three of the sizes; \
+            "Framebuffer instantiations: 7 colour depths (1,2,4,8,16,24,32 bits) x 2 data orders x sizes {1x1,3x2,5x3,8x2,9x4,13x7} with exact buffers and oversized (N+3, tail pre-filled with 0xA5) buffers for three of the sizes, plus six wide instantiations (257..2051 pixels per row); \
              per instantiation random histories of 1..=14 operations (set_pixel in/out of range incl. i32::MIN/MAX, draw_iter, fill_solid, fill_contiguous with short/exact/long streams, clear, a styled circle via draw(), wholly out-of-range writes); \
              after every operation pixel() is compared with the reference map on the area plus a ring, data() with the documented layout, the tail bytes with their pre-fill. Non-trivial = at least two operations changed in-range pixels; distinct = distinct (instantiation, operation trace).",
         );
@@ -394,6 +394,22 @@ fn main() {
             };
         }
         use embedded_graphics::pixelcolor::raw::RawData;
+        // wide framebuffers: rows longer than 255 pixels / bytes
+        let wide_reps = (reps / 20).max(40);
+        macro_rules! wide {
+            ($c:ty, $o:ty, $w:expr, $h:expr, $extra:expr) => {{
+                const N: usize = (($w * <$c as PixelColor>::Raw::BITS_PER_PIXEL + 7) / 8) * $h + $extra;
+                type F = Framebuffer<$c, <$c as PixelColor>::Raw, $o, $w, $h, N>;
+                let name: &'static str = Box::leak(format!("Framebuffer<{},{},{}x{},N={}>", <$c as Col>::name(), stringify!($o), $w, $h, N).into_boxed_str());
+                run.generate(name, wide_reps, false, 0.05, |ctx, _idx, rng| history::<$c, F>(ctx, name, rng));
+            }};
+        }
+        wide!(BinaryColor, LittleEndianMsb0, 300, 2, 0);
+        wide!(BinaryColor, BigEndianLsb0, 2051, 2, 3);
+        wide!(Gray4, BigEndianLsb0, 515, 2, 0);
+        wide!(Gray8, LittleEndianMsb0, 257, 3, 5);
+        wide!(Rgb565, BigEndianLsb0, 260, 2, 0);
+        wide!(Rgb888, LittleEndianMsb0, 300, 2, 3);
         orders!(BinaryColor);
         orders!(Gray2);
         orders!(Gray4);
